@@ -29,7 +29,7 @@ CLASSES = {"out_of_scope_variable_listed", "sibling_block_variable_listed", "dec
 STEP_CMDS = {"stepi", "step", "next", "finish"}
 QUICK = dict(builds=[("1.89", 0, True)], maxcmd=14, maxbps=2, ncands=4, nhist=7, mc="ScopeMC_q.cfg", session_e=0)
 THOROUGH = dict(builds=[(tc, o, True) for tc in ("1.89", "1.95", "nightly") for o in (0, 1)],
-                maxcmd=18, maxbps=3, ncands=6, nhist=24, mc="ScopeMC_t.cfg", session_e=5)
+                maxcmd=16, maxbps=3, ncands=6, nhist=12, mc="ScopeMC_t.cfg", session_e=5)
 
 
 # ------------------------------------------------------------------------------------------
